@@ -51,7 +51,7 @@ CLAIMED = {
  'C18': ('Machine-checked theorems (Lean 4, reals) about an executable model of the fsr helpers: plane contains its three points; mirror negates exactly the local z coordinate of any frame '
          '(anywhere in space) and is an involution; midpoint has the mean position and its relative rotation squares to the total relative rotation (Rodrigues additivity); lookAt keeps the position and is a '
          'proper rotation with local z at the target (outside the vertical set); distance is the Euclidean metric; closeLinearGap advances by exactly |delta| along the line; IKPath has the requested length, '
-         'end points and constant increments; sphere samplers are unit; angleMod changes an angle by a multiple of 2pi. twistToGoal exponentiates onto the goal for every pair of rigid transforms whose relative rotation angle is 0 or at least the cut-off, half turns included (from exp6(log6 T) = T). closeArcGap advances by exactly |delta| in the library\'s own arc distance, along goal - origin (step rotation zero or outside the cut-off band and below pi). Chain/numerical Jacobians and rotationFromVector are decided on the implementation only (sampled). '
+         'end points and constant increments; sphere samplers are unit; angleMod changes an angle by a multiple of 2pi. twistToGoal exponentiates onto the goal for every pair of rigid transforms whose relative rotation angle is 0 or at least the cut-off, half turns included (from exp6(log6 T) = T). closeArcGap advances by exactly |delta| in the library\'s own arc distance, along goal - origin (step rotation zero or outside the cut-off band and below pi). chainJacobian is the JacobianSpace recursion and is tied to that model function (so the C06 column and derivative theorems cover it); numericalJacobian and rotationFromVector are decided on the implementation only (sampled). '
          'Model tied by a differential run; every relation also evaluated on the real functions.',
          'Trusted: Lean kernel, Mathlib, harness generators; optimiser-based helpers not modelled; rounding outside.',
          'Lean 4 proofs on a hand-written model (sympy-found linear_combination certificates) + differential correspondence + on-function falsifier',
@@ -81,7 +81,7 @@ CLAIMED = {
          'FKinSpace with base-transformed screws and home equals base * prod exp([S_i]theta_i) * home for chains of any length; clamping is idempotent (out-of-limit vectors are evaluated as if clamped); '
          'and by induction over every history of FK / IK (either solver, arbitrary answers) / move / stationary move / tool change / restore / randomPos the reported tool pose is the product-of-exponentials pose of the stored joint vector '
          'with the current base and tool home. The Arm state machine is tied to the real class by replaying histories (solver answers as oracle inputs); FK is also compared with SciPy expm from the constructor arguments.',
-         'Trusted: Lean kernel, Mathlib, harness arm builders and SciPy reference; side condition: no evaluated joint strictly inside the (0,1e-6) band; URDF arms via C13.',
+         'Trusted: Lean kernel, Mathlib, harness arm builders and SciPy reference; side condition: no evaluated joint strictly inside the (0,1e-6) band (recorded known finding C05-joint-cutoff-band); histories run on the 6R test arm, random chains with asymmetric limits and the bundled URDF models (file limits).',
          'Lean 4 proofs (conjugation of the exponential, induction over chains and over operation histories) + history-replay correspondence + SciPy-expm falsifier',
          'DESIGN.md section 5 C05'),
  'C07': ('Machine-checked theorems (Lean 4): for the limit-respecting Newton loop with an arbitrary pseudo-inverse oracle and any iteration cap, a reported success implies the angular part of the space-frame error twist is within the orientation tolerance and the linear part within the position tolerance; '
@@ -92,7 +92,7 @@ CLAIMED = {
          'DESIGN.md section 5 C07'),
  'C06': ('Partial proof: machine-checked theorems (Lean 4) for the algebraic clauses - column i of the space Jacobian model is Ad(prod_{k<i} exp([S_k]theta_k)) S_i for chains of any length, torque.rate = wrench.twist for every Jacobian, '
          'linearity of the transpose map in the wrench (link-mass term), with exp6 conjugation / chain base change from C05; and the derivative clause for the space Jacobian: d/dtheta of the library\'s own exponential is [S] times it outside the 1e-6 cut-off band '
-         '(entrywise HasDerivAt of the Rodrigues closed forms), hence d/dtheta_i FK(theta) = [J_space(theta) e_i] FK(theta) for chains of any length (product rule through conj_hat6). and the body-frame clause: for the body screws B_k = Ad(inv M) S_k the library\'s JacobianBody column i equals Ad(inv FK) applied to column i of JacobianSpace, for chains of any length whose joints are exact (prismatic, at angle 0, or unit axis with |theta| >= 1e-6), from e^{-[S]theta} e^{[S]theta} = I and Ad(e^{[S]theta}) S = S. Inside the band, and for the link / tool-aligned / numerical variants and the pseudo-inverse round trip, '
+         '(entrywise HasDerivAt of the Rodrigues closed forms), hence d/dtheta_i FK(theta) = [J_space(theta) e_i] FK(theta) for chains of any length (product rule through conj_hat6). and the body-frame clause: for the body screws B_k = Ad(inv M) S_k the library\'s JacobianBody column i equals Ad(inv FK) applied to column i of JacobianSpace, for chains of any length whose joints are exact (prismatic, at angle 0, or unit axis with |theta| >= 1e-6), from e^{-[S]theta} e^{[S]theta} = I and Ad(e^{[S]theta}) S = S. The link-mass statics loop is modelled (torque i = J_i . (tool wrench + weights of the links distal to joint i), any chain length; J_i . (p x f, f) = omega . ((p - q) x f), the moment of the weight about the joint axis) and compared with the real method. Inside the band, and for the link / tool-aligned / numerical variants and the pseudo-inverse round trip, '
          'the property is decided on the real Arm by Richardson-extrapolated central differences and NumPy references (labelled sampled); model Jacobians are compared with the Arm\'s on its stored screws.',
          'Trusted: Lean kernel, Mathlib (calculus of sin/cos), harness finite differences (steps >= 1e-4) and frame references.',
          'Lean 4 proofs (algebraic clauses; entrywise HasDerivAt for the derivative clause) + differential correspondence + finite-difference falsifier on the real Arm',
@@ -111,7 +111,7 @@ CLAIMED = {
          'Lean 4 induction over links (superposition of the Newton-Euler recursion) + differential correspondence + identity falsifier on the MR functions and Arm methods',
          'DESIGN.md section 5 C08'),
  'C10': ('Proof: machine-checked theorems (Lean 4) about a state-machine model of the Stewart platform (IK helper, validate chain with corrective actions and re-validation, both FK paths, reverse FK, move, spinCustom, inverseJacobian, randomPos) in which every value a numeric solver returns is a universally quantified oracle input: '
-         'every public call preserves coherence of the published state and so does every history of any length (induction over the history); whenever validate(), an unprotected IK or forward FK, or validate(True) reports valid, every enabled constraint holds of the state left behind; the Jacobian/force queries return both plates to the poses they found. '
+         'every public call preserves coherence of the published state and so does every history of any length (induction over the history); whenever validate(), an unprotected IK or forward FK, or validate(True) reports valid, every enabled constraint holds of the state left behind; the Jacobian/force queries return both plates to the poses they found. For the reversed FK (over the reals, rigid plate poses): every constraint is invariant under moving both plates by one rigid motion, validate() takes no action on a state that meets every enabled constraint, hence the verdict a reversed FK returns is true of the re-expressed state it leaves, with the top plate back where it was. '
          'The theorems hold for every scalar instance, including the Float instance that is run. The model is tied to sp_model.py by executing random histories on the real SP and on the model (solver outputs recorded in the harness) and comparing plates, joints, lengths, relative transform and verdicts after every call; coherence, constraints and purity are also evaluated directly on the real object. '
          'The exception fallback between the two FK solvers and what FK does after an upside-down repair are modelled (the repaired pose itself is an oracle input); the verdict of a reversed or protected FK is decided on the implementation only.',
          'Trusted: Lean kernel, solver recording by monkeypatching inside the harness process, independent constraint formulas of the harness.',
